@@ -15,7 +15,8 @@
 
 
 import abc
-from typing import Any, Callable, Optional
+import contextlib
+from typing import Any, Callable, Iterator, Optional
 
 from pyglove.core import geno
 from pyglove.core import symbolic
@@ -188,6 +189,42 @@ def set_dynamic_evaluate_fn(
     utils.thread_local_set(_TLS_KEY_DYNAMIC_EVALUATE_FN, fn)
   else:
     _global_dynamic_evaluate_fn = fn
+
+
+@contextlib.contextmanager
+def dynamic_evaluate_fn_scope(
+    fn: Optional[Callable[[HyperValue], Any]], per_thread: bool
+) -> Iterator[None]:
+  """Context manager that sets the dynamic evaluate function within a scope.
+
+  On exit, the setting of the same level (current thread or process) is put
+  back to exactly what it was on entry. In particular, a thread that had no
+  thread-level setting has none afterwards, so a process-level setting made
+  later is still seen by that thread, and a process-level scope never copies
+  a thread-level function into the process-level setting.
+
+  Args:
+    fn: The dynamic evaluate function to use in scope.
+    per_thread: If True, the setting applies to current thread only. Otherwise
+      it applies to the process.
+
+  Yields:
+    None.
+  """
+  global _global_dynamic_evaluate_fn
+  if per_thread:
+    assert _global_dynamic_evaluate_fn is None, _global_dynamic_evaluate_fn
+    with utils.thread_local_value_scope(
+        _TLS_KEY_DYNAMIC_EVALUATE_FN, fn, None
+    ):
+      yield
+  else:
+    old_fn = _global_dynamic_evaluate_fn
+    _global_dynamic_evaluate_fn = fn
+    try:
+      yield
+    finally:
+      _global_dynamic_evaluate_fn = old_fn
 
 
 def get_dynamic_evaluate_fn() -> Optional[Callable[[HyperValue], Any]]:
